@@ -276,3 +276,35 @@ def walk_stmts(block):
             sub = getattr(st, fld, None)
             if isinstance(sub, list) and sub and isinstance(sub[0], ast.stmt) and not isinstance(st, (ast.FunctionDef, ast.ClassDef)):
                 yield from walk_stmts(sub)
+
+
+def subst_single_defs(f: Func, e: ast.AST, depth: int = 4) -> ast.AST:
+    """`e` with every local that has exactly one definition (a plain assignment to the bare name) replaced by the defining
+    expression, repeatedly: `v = g(..); return v ** 0.5` is read as `return g(..) ** 0.5`."""
+    defs: Dict[str, List[ast.AST]] = {}
+    for s in walk_no_nested(f.node):
+        if isinstance(s, ast.Assign):
+            for t in s.targets:
+                for n in ast.walk(t):
+                    if isinstance(n, ast.Name):
+                        defs.setdefault(n.id, []).append(s.value if (len(s.targets) == 1 and t is n) else None)
+        elif isinstance(s, (ast.AugAssign, ast.AnnAssign)) and isinstance(s.target, ast.Name):
+            defs.setdefault(s.target.id, []).append(None)
+        elif isinstance(s, (ast.For, ast.comprehension)):
+            for n in ast.walk(s.target):
+                if isinstance(n, ast.Name):
+                    defs.setdefault(n.id, []).append(None)
+    single = {k: v[0] for k, v in defs.items() if len(v) == 1 and v[0] is not None and k not in f.named_params}
+
+    class S(ast.NodeTransformer):
+        def visit_Name(self, n):
+            if isinstance(n.ctx, ast.Load) and n.id in single:
+                return ast.copy_location(copy.deepcopy(single[n.id]), n)
+            return n
+    out = copy.deepcopy(e)
+    for _ in range(depth):
+        before = ast.dump(out)
+        out = S().visit(out)
+        if ast.dump(out) == before:
+            break
+    return out
